@@ -213,6 +213,14 @@ CLAIMED = {
              "NaN: the previous result where there is one, flat start otherwise, and does not write the result table.",
         note="Assumed: the bus fusing helpers compute from the current tables. Not decided: the remaining cached state (rebuilt by "
              "_pd2ppc, covered by the C08 frame contracts; recycling: C12; options: C34), convergence of Newton from a nearby start."),
+    "C23": dict(
+        text="Proof for the generic replaced element (real replace_line_by_impedance / replace_impedance_by_line, loop over the rows): the "
+             "impedance created for a line has rft/xft/gf/bf_pu of the line's per-unit pi model with the line's own length_km and "
+             "parallel and Z_N = vn^2 / sn_mva, same buses, sn_mva and in_service; the line created for a symmetric impedance has "
+             "r * length = rft_pu * Z_N (x alike), no capacitance, parallel 1 - the inverse mapping.",
+        note="Assumed: create_impedance / create_line_from_parameters store their arguments; the line pi model (C02). Not decided: the "
+             "other transformations named in the statement (ext_grid -> gen, ward / xward replacement, merge_nets, select_subnet, "
+             "drop_inactive_elements, fuse_buses, merge_parallel_line), result / profile / group adaptation."),
 }
 
 NOT_APPLICABLE = {
